@@ -1,7 +1,528 @@
 package c16
 
-func evalBehaviour(files map[string]string, meta map[string]*instMeta) ([]finding, string) {
-	return nil, "not implemented"
+import (
+	"bytes"
+	"context"
+	"encoding/json"
+	"fmt"
+	"go/ast"
+	"go/parser"
+	"go/token"
+	"os"
+	"os/exec"
+	"path/filepath"
+	"regexp"
+	"sort"
+	"strings"
+	"sync"
+	"testing"
+	"time"
+
+	"golang.org/x/tools/go/analysis"
+	"honnef.co/go/tools/lintcmd/runner"
+	"pgregory.net/rapid"
+	"verif/harness/internal/ev"
+	"verif/harness/internal/rn"
+)
+
+// instMeta is what the generator knows about an instance file (nil when replaying).
+type instMeta struct {
+	check, shape string
+	holes        bool // tracing call, multi-line or lower-precedence operand in a hole
+	alias        int
 }
 
-type instMeta struct{}
+var (
+	sqOnce      sync.Once
+	sqAnalyzers []*analysis.Analyzer
+)
+
+// simpleAndQuickfix returns the S and QF analyzers.
+func simpleAndQuickfix() []*analysis.Analyzer {
+	sqOnce.Do(func() {
+		for _, a := range rn.Analyzers(true) {
+			if strings.HasPrefix(a.Name, "S1") || strings.HasPrefix(a.Name, "QF") {
+				sqAnalyzers = append(sqAnalyzers, a)
+			}
+		}
+	})
+	return sqAnalyzers
+}
+
+var funcNameRe = regexp.MustCompile(`(?m)^func (F\d+)\(`)
+
+// resultCount returns the number of results of the function named name in src.
+func resultCount(src []byte, name string) (int, bool) {
+	f, err := parser.ParseFile(token.NewFileSet(), "x.go", src, parser.SkipObjectResolution)
+	if err != nil {
+		return 0, false
+	}
+	for _, d := range f.Decls {
+		fd, ok := d.(*ast.FuncDecl)
+		if !ok || fd.Name.Name != name || fd.Recv != nil {
+			continue
+		}
+		n := 0
+		if fd.Type.Results != nil {
+			for _, fl := range fd.Type.Results.List {
+				if len(fl.Names) == 0 {
+					n++
+				} else {
+					n += len(fl.Names)
+				}
+			}
+		}
+		return n, true
+	}
+	return 0, false
+}
+
+type variant struct {
+	fn      string // F3
+	name    string // F3_v0
+	check   string
+	fixMsg  string
+	diagMsg string
+	file    string // orig file (base name)
+	patched string // patched function file, before import adjustment and renaming
+	results int
+}
+
+const mainTemplate = `package main
+
+import (
+	"fmt"
+	"runtime"
+
+	fixed "t/fixed"
+	orig "t/orig"
+)
+
+type vec struct {
+	a, b int
+	s, t string
+	h    bool
+	xs   []int
+	m    map[string]int
+	bs   []byte
+	e    error
+	fl   float64
+	v    any
+}
+
+type myErr struct{}
+
+func (myErr) Error() string { return "myErr" }
+
+func mk(i int) vec {
+	ints := []int{0, 1, -1, 2, 3, 7, 1 << 62, -1 << 63, 5, -4}
+	strs := []string{"", "a", "ab", "é", "abcabc", "b-a", "%d"}
+	slices := [][]int{nil, {}, {1}, {1, 2, 3}, {4, 5, 6, 7, 8}}
+	maps := []map[string]int{nil, {}, {"a": 1}, {"a": 1, "ab": 2, "": 3}}
+	bss := [][]byte{nil, {}, []byte("a"), []byte("abcab")}
+	errs := []error{nil, myErr{}}
+	fls := []float64{0, 1, -1.5, 2, 1e200, 0.1, -3}
+	anys := []any{5, "xy", nil, 3.5, []int{1}}
+	v := vec{
+		a: ints[i%len(ints)], b: ints[(i*3+1)%len(ints)],
+		s: strs[(i*5)%len(strs)], t: strs[(i*3+2)%len(strs)],
+		h:  (i/3)%2 == 0,
+		e:  errs[(i/2)%2],
+		fl: fls[(i*5)%len(fls)],
+		v:  anys[i%len(anys)],
+	}
+	if x := slices[(i*3)%len(slices)]; x != nil {
+		v.xs = append(make([]int, 0, len(x)), x...)
+	}
+	if x := maps[(i/2)%len(maps)]; x != nil {
+		v.m = map[string]int{}
+		for k, e := range x {
+			v.m[k] = e
+		}
+	}
+	if x := bss[i%len(bss)]; x != nil {
+		v.bs = append(make([]byte, 0, len(x)), x...)
+	}
+	return v
+}
+
+func show(vals ...any) string {
+	out := ""
+	for _, v := range vals {
+		switch x := v.(type) {
+		case nil:
+			out += "[nil]"
+		case error:
+			out += fmt.Sprintf("[%T %q]", x, x.Error())
+		default:
+			out += fmt.Sprintf("[%T %#v]", v, v)
+		}
+	}
+	return out
+}
+
+func classify(r any) string {
+	if _, ok := r.(runtime.Error); ok {
+		return "runtime-error"
+	}
+	if e, ok := r.(error); ok {
+		return "error:" + e.Error()
+	}
+	return fmt.Sprintf("value:%v", r)
+}
+
+func outcome(reset func(), state func() string, call func(v *vec) string, i int) string {
+	v := mk(i)
+	reset()
+	res, pan := "?", "none"
+	func() {
+		defer func() {
+			if r := recover(); r != nil {
+				pan = classify(r)
+			}
+		}()
+		res = call(&v)
+	}()
+	return fmt.Sprintf("res=%s panic=%s %s args=%v|%v|%q", res, pan, state(), v.xs, v.m, v.bs)
+}
+
+const nvec = 60
+
+func compare(name string, o, f func(v *vec) string) {
+	diffs := 0
+	for i := 0; i < nvec; i++ {
+		a := outcome(orig.Reset, orig.State, o, i)
+		b := outcome(fixed.Reset, fixed.State, f, i)
+		if a != b {
+			diffs++
+			if diffs <= 3 {
+				v := mk(i)
+				fmt.Printf("DIFF %s input %d %+v\n  original: %s\n  fixed:    %s\n", name, i, v, a, b)
+			}
+		}
+	}
+	fmt.Printf("DONE %s %d\n", name, diffs)
+}
+
+func main() {
+//BODY
+}
+`
+
+const callArgs = "v.a, v.b, v.s, v.t, v.h, v.xs, v.m, v.bs, v.e, v.fl, v.v"
+
+func callClosure(pkg, fn string, results int) string {
+	if results == 0 {
+		return fmt.Sprintf("func(v *vec) string { %s.%s(%s); return show() }", pkg, fn, callArgs)
+	}
+	return fmt.Sprintf("func(v *vec) string { return show(%s.%s(%s)) }", pkg, fn, callArgs)
+}
+
+// evalBehaviour analyses the package given by files (base name -> content, must
+// contain prelude.go), applies every fix of every S/QF diagnostic separately,
+// and compares original and fixed functions by execution.
+func evalBehaviour(files map[string]string, meta map[string]*instMeta) ([]finding, string) {
+	dir, err := os.MkdirTemp("", "c16b-")
+	if err != nil {
+		return nil, err.Error()
+	}
+	defer os.RemoveAll(dir)
+	odir := filepath.Join(dir, "orig")
+	fdir := filepath.Join(dir, "fixed")
+	os.MkdirAll(odir, 0o755)
+	os.MkdirAll(fdir, 0o755)
+	os.WriteFile(filepath.Join(dir, "go.mod"), []byte("module t\n\ngo 1.26.0\n"), 0o644)
+
+	// 1. the original package must type-check; files that do not are generator errors
+	ps := newPkgSrc()
+	for n, s := range files {
+		ps.add(filepath.Join(odir, n), []byte(s))
+	}
+	for round := 0; round < 4; round++ {
+		errs := typeErrors(ps)
+		if len(errs) == 0 {
+			break
+		}
+		bad := map[string]bool{}
+		for _, e := range errs {
+			if e.Fset != nil && e.Pos.IsValid() {
+				bad[e.Fset.Position(e.Pos).Filename] = true
+			}
+		}
+		if len(bad) == 0 || bad[filepath.Join(odir, "prelude.go")] {
+			return nil, "generated package does not type-check:\n" + errText(errs)
+		}
+		q := newPkgSrc()
+		for _, n := range ps.order {
+			if bad[n] {
+				ev.Count("gen_invalid", 1)
+				if m := meta[filepath.Base(n)]; m != nil {
+					stat("shapes_invalid_by_check", m.check+"/"+m.shape, 1)
+				}
+				ev.Extra("last_gen_invalid", errText(errs)+string(ps.files[n]))
+				continue
+			}
+			q.add(n, ps.files[n])
+		}
+		ps = q
+	}
+	for _, n := range ps.order {
+		os.WriteFile(n, ps.files[n], 0o644)
+	}
+
+	// 2. analyse
+	var diags []runner.Diagnostic
+	err = rn.Run(rn.Options{Dir: dir}, simpleAndQuickfix(), []string{"./orig"}, func(res []runner.Result) error {
+		for _, r := range res {
+			if !r.Initial {
+				continue
+			}
+			if r.Failed {
+				return fmt.Errorf("generated package failed to load: %v", r.Errors)
+			}
+			data, err := r.Load()
+			if err != nil {
+				return err
+			}
+			diags = append(diags, data.Diagnostics...)
+		}
+		return nil
+	})
+	if err != nil {
+		return nil, err.Error()
+	}
+
+	var out []finding
+	addFinding := func(check, kind, file, msg string) {
+		fs := map[string]string{"prelude.go": files["prelude.go"], file: string(ps.files[filepath.Join(odir, file)])}
+		out = append(out, finding{check: check, kind: kind, sig: knownSig(check, kind), msg: msg, files: fs})
+	}
+
+	// 3. apply every fix separately
+	var variants []variant
+	perFile := map[string]int{}
+	hit := map[string]map[string]bool{} // file -> checks that reported with a fix
+	for _, d := range diags {
+		base := filepath.Base(d.Position.Filename)
+		if base == "prelude.go" {
+			continue
+		}
+		stat("diagnostics_by_check", d.Category, 1)
+		for _, v := range checkPositions(ps, d) {
+			addFinding(d.Category, v.kind, base, fmt.Sprintf("generated function: %s %q: %s\n%s", d.Category, d.Message, v.msg, ps.files[d.Position.Filename]))
+		}
+		for fi, fix := range d.SuggestedFixes {
+			stat("fixes_by_check", d.Category, 1)
+			desc := fmt.Sprintf("%s at %s:%d:%d %q, fix %d %q", d.Category, base, d.Position.Line, d.Position.Column, d.Message, fi, fix.Message)
+			ap, vs := applyFix(ps, fix)
+			for _, v := range vs {
+				addFinding(d.Category, v.kind, base, fmt.Sprintf("generated function: %s: %s\n%s", desc, v.msg, ps.files[d.Position.Filename]))
+			}
+			if ap == nil || ap.file == "" {
+				continue
+			}
+			stat("fixes_applied_by_check", d.Category, 1)
+			if hit[base] == nil {
+				hit[base] = map[string]bool{}
+			}
+			hit[base][d.Category] = true
+			orig := ps.files[ap.file]
+			if err := parses(ap.file, ap.src); err != nil {
+				addFinding(d.Category, "parse", base, fmt.Sprintf("%s: the patched file does not parse: %v\noriginal:\n%s\npatched:\n%s", desc, err, orig, ap.src))
+				continue
+			}
+			var texts [][]byte
+			for _, e := range fix.TextEdits {
+				texts = append(texts, e.NewText)
+			}
+			adj, errs, log := adjustImports(ps.with(ap.file, ap.src), ap.file, texts)
+			if len(log) > 0 {
+				ev.Count("fixes_needing_import_adjustment", 1)
+			}
+			if len(errs) > 0 {
+				addFinding(d.Category, "typecheck", base, fmt.Sprintf("%s: the patched package does not type-check (import adjustment: %v):\n%soriginal:\n%s\npatched:\n%s", desc, log, errText(errs), orig, ap.src))
+				continue
+			}
+			stat("fixes_typechecked_by_check", d.Category, 1)
+			m := funcNameRe.FindSubmatch(orig)
+			if m == nil {
+				continue
+			}
+			fn := string(m[1])
+			nres, ok := resultCount(orig, fn)
+			if !ok {
+				continue
+			}
+			if perFile[base] >= 8 {
+				ev.Count("variants_over_cap", 1)
+				continue
+			}
+			vn := fmt.Sprintf("%s_v%d", fn, perFile[base])
+			perFile[base]++
+			src := adj.files[ap.file]
+			src = bytes.Replace(src, []byte("func "+fn+"("), []byte("func "+vn+"("), 1)
+			os.WriteFile(filepath.Join(fdir, strings.TrimSuffix(base, ".go")+fmt.Sprintf("_v%d.go", perFile[base]-1)), src, 0o644)
+			variants = append(variants, variant{fn: fn, name: vn, check: d.Category, fixMsg: fix.Message, diagMsg: d.Message, file: base, patched: string(ap.src), results: nres})
+		}
+	}
+
+	// bookkeeping per instance
+	for _, n := range ps.order {
+		base := filepath.Base(n)
+		m := meta[base]
+		if m == nil {
+			continue
+		}
+		stat("shapes_instantiated_by_check", m.check, 1)
+		fired := hit[base][m.check]
+		if fired {
+			stat("shapes_fired_by_check", m.check, 1)
+		} else {
+			stat("shapes_without_fix_by_check", m.check+"/"+m.shape, 1)
+		}
+		classes := []string{"instance"}
+		if fired {
+			classes = append(classes, "instance_with_fix")
+		}
+		if m.holes {
+			classes = append(classes, "instance_with_tracing_multiline_or_lowprec_hole")
+		}
+		if m.alias > 0 {
+			classes = append(classes, "instance_with_aliased_import")
+		}
+		ev.Case(ev.Hash(m.check, string(ps.files[n])), fired && m.holes, classes...)
+	}
+	if len(variants) == 0 {
+		return out, ""
+	}
+
+	// 4. build and run
+	os.WriteFile(filepath.Join(fdir, "prelude.go"), []byte(files["prelude.go"]), 0o644)
+	var body strings.Builder
+	for _, v := range variants {
+		fmt.Fprintf(&body, "\tcompare(%q, %s, %s)\n", v.name, callClosure("orig", v.fn, v.results), callClosure("fixed", v.name, v.results))
+	}
+	os.WriteFile(filepath.Join(dir, "main.go"), []byte(strings.Replace(mainTemplate, "//BODY\n", body.String(), 1)), 0o644)
+	build := exec.Command("go", "build", "-o", "prog", ".")
+	build.Dir = dir
+	if o, err := build.CombinedOutput(); err != nil {
+		var all strings.Builder
+		for _, v := range variants {
+			fmt.Fprintf(&all, "== %s (%s)\n%s\n", v.name, v.check, v.patched)
+		}
+		return out, fmt.Sprintf("go build of the comparison program failed (the packages type-checked in-process): %v\n%s\n%s", err, o, all.String())
+	}
+	ctx, cancel := context.WithTimeout(context.Background(), 60*time.Second)
+	defer cancel()
+	run := exec.CommandContext(ctx, filepath.Join(dir, "prog"))
+	run.Dir = dir
+	var stdout, stderr bytes.Buffer
+	run.Stdout, run.Stderr = &stdout, &stderr
+	runErr := run.Run()
+	done := map[string]bool{}
+	diffText := map[string]string{}
+	lines := strings.Split(stdout.String(), "\n")
+	for i := 0; i < len(lines); i++ {
+		l := lines[i]
+		switch {
+		case strings.HasPrefix(l, "DIFF "):
+			name := strings.Fields(l)[1]
+			txt := l
+			for i+1 < len(lines) && strings.HasPrefix(lines[i+1], "  ") {
+				i++
+				txt += "\n" + lines[i]
+			}
+			if diffText[name] == "" {
+				diffText[name] = txt
+			}
+		case strings.HasPrefix(l, "DONE "):
+			done[strings.Fields(l)[1]] = true
+		}
+	}
+	for _, v := range variants {
+		stat("fixes_executed_by_check", v.check, 1)
+		origSrc := string(ps.files[filepath.Join(odir, v.file)])
+		switch {
+		case diffText[v.name] != "":
+			if why, ok := exemptChecks[v.check]; ok {
+				ev.Count("behaviour_differs_exempt_"+v.check, 1)
+				_ = why
+				continue
+			}
+			addFinding(v.check, "behaviour", v.file, fmt.Sprintf("%s %q, fix %q changes the behaviour of the function:\n%s\noriginal:\n%s\npatched:\n%s", v.check, v.diagMsg, v.fixMsg, diffText[v.name], origSrc, v.patched))
+		case !done[v.name]:
+			if runErr != nil && ctx.Err() != nil {
+				addFinding(v.check, "behaviour", v.file, fmt.Sprintf("%s fix %q: the comparison program did not finish within 60s while running (or before reaching) %s\noriginal:\n%s\npatched:\n%s", v.check, v.fixMsg, v.name, origSrc, v.patched))
+			} else {
+				return out, fmt.Sprintf("comparison program ended early: %v\n%s", runErr, stderr.String())
+			}
+			return out, ""
+		default:
+			ev.Count("fix_behaviour_equal", 1)
+		}
+	}
+	return out, ""
+}
+
+// TestShapes is the behavioural clause.
+func TestShapes(t *testing.T) {
+	ev.Rule(rule)
+	defer flushStats()
+	emitters := fixEmitters("simple", "quickfix")
+	have := map[string]bool{}
+	for _, s := range shapes {
+		have[s.check] = true
+	}
+	var noShape []string
+	for _, c := range emitters {
+		if !have[c] {
+			noShape = append(noShape, c)
+		}
+	}
+	ev.Extra("fix_emitting_simple_quickfix_checks", strings.Join(emitters, " "))
+	ev.Extra("checks_without_shape_position_apply_clause_only", strings.Join(noShape, " "))
+	ev.Extra("checks_with_shape", len(have))
+	var exempt []string
+	for c, why := range exemptChecks {
+		exempt = append(exempt, c+": "+why)
+	}
+	sort.Strings(exempt)
+	ev.Assume("behavioural equality is not asserted (only counted) for checks whose fix deliberately changes behaviour: " + strings.Join(exempt, "; "))
+	ev.Assume("time-dependent rewrites (S1012, S1024, S1037) are compared through time-independent observations (sign of a duration far from zero, trace, completion)")
+	perCase := ev.EnvInt("C16_INSTANCES", 20, 24)
+	ev.Check(t, "TestShapes", func(rt *rapid.T) {
+		files := map[string]string{"prelude.go": prelude}
+		meta := map[string]*instMeta{}
+		for i := 0; i < perCase; i++ {
+			sh := &shapes[rapid.IntRange(0, len(shapes)-1).Draw(rt, "shape")]
+			in := buildInstance(rt, i, sh)
+			name := fmt.Sprintf("f%d.go", i)
+			files[name] = in.Src
+			meta[name] = &instMeta{check: in.Check, shape: in.Shape, holes: in.nontrivialHoles(), alias: in.Alias}
+		}
+		rp := &Replay{Kind: "behaviour", Files: files}
+		ev.Begin("TestShapes", "json", rp.bytes())
+		fs, infra := evalBehaviour(files, meta)
+		if infra != "" {
+			ev.Count("infra_skipped", 1)
+			ev.Extra("last_infra", infra)
+			rt.Skip(infra)
+		}
+		msgs, first := reportFindings(fs)
+		if first != nil {
+			one := &Replay{Kind: "behaviour", Check: first.check, Files: first.files, Note: first.sig}
+			ev.Begin("TestShapes", "json", one.bytes())
+			ev.Failf(rt, "TestShapes", "%s", strings.Join(msgs, "\n\n"))
+		}
+		if ev.WantSample() {
+			for n, m := range meta {
+				if m.holes {
+					ev.Sample(map[string]any{"kind": "shape instance", "check": m.check, "shape": m.shape, "source": files[n]})
+					break
+				}
+			}
+		}
+	})
+}
+
+var _ = json.Marshal
